@@ -143,9 +143,11 @@ def verify_hyperparameters(num_buckets=None,
   Raises:
     ValueError: If parameters are incorrect or inconsistent.
   """
-  if num_buckets is not None and num_buckets < 1:
+  if num_buckets is not None and (
+      not isinstance(num_buckets, numbers.Integral) or num_buckets < 1):
     raise ValueError(
-        "num_buckets must be at least 1. Given: {}".format(num_buckets))
+        "num_buckets must be an integer and at least 1. Given: {}".format(
+            num_buckets))
 
   if output_min is not None and output_max is not None:
     if output_max < output_min:
